@@ -349,6 +349,25 @@ impl ImplState {
                 }
                 _ => "bad-op".into(),
             },
+            // eng.golim <depth> <nodes:N|polls:N>: a search on the engine's OWN searcher (game history in place) cut off by a deadline
+            "eng.golim" if t.len() == 3 => match t[1].parse::<u8>() {
+                Ok(d) => {
+                    let (nl, pl) = if let Some(n) = t[2].strip_prefix("nodes:") { (n.parse::<u64>().ok(), None) }
+                        else if let Some(n) = t[2].strip_prefix("polls:") { (None, n.parse::<u64>().ok()) } else { return "bad-op".into() };
+                    let b = *self.uci.verif_board();
+                    let s = self.uci.verif_searcher();
+                    s.verif_set_node_limit(nl);
+                    s.verif_set_poll_limit(pl);
+                    let (score, mv) = s.find_best_move(&b, d, Some(std::time::Duration::from_secs(86400)));
+                    let r = format!("{} {} nodes={} rep={}:{}", score, opt_mv_text(&mv), s.verif_timer().nodes(), s.verif_repetition_len(), s.verif_repetition_xor());
+                    s.verif_set_node_limit(None);
+                    s.verif_set_poll_limit(None);
+                    r
+                }
+                _ => "bad-op".into(),
+            },
+            "eng.rep" if t.len() == 1 => { let s = self.uci.verif_searcher(); format!("{}:{}", s.verif_repetition_len(), s.verif_repetition_xor()) }
+            "eng.repsame" if t.len() == 3 => "ok".into(),
             "eng.judge1" if t.len() == 2 => "ok".into(),
             "eng.judged" if t.len() == 4 => "ok".into(),
             "eng.deeper" if t.len() == 1 => self.uci.verif_searcher().verif_deeper_hits.get().to_string(),
